@@ -16,20 +16,20 @@ import (
 // Stats collects what a check actually explored; it is flushed to
 // $VERIF_STATS_DIR/<prop>-<pid>.json and aggregated by run.py into evidence.
 type Stats struct {
-	mu          sync.Mutex
-	Property    string            `json:"property"`
-	Cases       int               `json:"cases"`
-	NonTrivial  map[string]bool   `json:"-"`
-	NTHashes    []string          `json:"nontrivial_hashes"`
-	Labels      map[string]int    `json:"labels"`
-	Samples     []json.RawMessage `json:"samples"`
-	Excluded    map[string]int    `json:"excluded_by_known_finding"`
-	Discarded   map[string]int    `json:"discarded"`
-	Violations  []Violation       `json:"violations"`
-	KnownSeen   map[string]string `json:"known_seen"` // sig -> what fails (replayed known findings that still fail)
-	Rule        string            `json:"rule"`
-	Extra       map[string]any    `json:"extra,omitempty"`
-	sampleSeen  int
+	mu         sync.Mutex
+	Property   string            `json:"property"`
+	Cases      int               `json:"cases"`
+	NonTrivial map[string]bool   `json:"-"`
+	NTHashes   []string          `json:"nontrivial_hashes"`
+	Labels     map[string]int    `json:"labels"`
+	Samples    []json.RawMessage `json:"samples"`
+	Excluded   map[string]int    `json:"excluded_by_known_finding"`
+	Discarded  map[string]int    `json:"discarded"`
+	Violations []Violation       `json:"violations"`
+	KnownSeen  map[string]string `json:"known_seen"` // sig -> what fails (replayed known findings that still fail)
+	Rule       string            `json:"rule"`
+	Extra      map[string]any    `json:"extra,omitempty"`
+	sampleSeen int
 }
 
 type Violation struct {
@@ -100,10 +100,10 @@ func (s *Stats) SetRule(r string) { s.mu.Lock(); s.Rule = r; s.mu.Unlock() }
 
 type KnownFinding struct {
 	Property string `json:"property"`
-	Sig      string `json:"sig"`      // regular expression matched against failure signatures (anchored)
-	What     string `json:"what"`     // human description printed on the KNOWN-FINDING line
-	Replay   string `json:"replay"`   // stored minimal case (relative to /verif)
-	Status   string `json:"status"`   // "open" | "fixed"
+	Sig      string `json:"sig"`    // regular expression matched against failure signatures (anchored)
+	What     string `json:"what"`   // human description printed on the KNOWN-FINDING line
+	Replay   string `json:"replay"` // stored minimal case (relative to /verif)
+	Status   string `json:"status"` // "open" | "fixed"
 	Commit   string `json:"commit,omitempty"`
 	re       *regexp.Regexp
 }
